@@ -382,6 +382,10 @@ pub fn instance(form: &Form, rng: &mut Rng, opt: GenOpt, fixed: &BTreeMap<char, 
         if sp + 8 > 0xffff20 && sp >= 0xffbf20 {
             sp = 0xffff10;
         }
+        // word-aligned stack pointers that are not a multiple of 4 are legitimate (e.g. after PUSH.W)
+        if rng.chance(1, 4) && sp + 12 < 0xffff20 {
+            sp |= 2;
+        }
         c.er[7] = sp | if opt.wild_addr { (rng.u8() as u32) << 24 } else { 0 };
         if form.name == "RTS" || form.name == "RTE" {
             let ret = code_addr(rng, 2);
@@ -581,9 +585,9 @@ impl Mode for StepMode {
                             emit(instance(form, &mut rng, opt, &none).line());
                         }
                     }
-                    // (c') C01 / C05: the same with non-zero upper bytes in the address registers (the operand address is
+                    // (c') C01 / C04 / C05 / C20: the same with non-zero upper bytes in the address registers (the operand address is
                     //      the low 24 bits; the register itself must still change by exactly the operand size)
-                    if (prop == "C01" || prop == "C05") && !opt.wild_addr {
+                    if (prop == "C01" || prop == "C05" || prop == "C04" || prop == "C20") && !opt.wild_addr {
                         let wild = GenOpt { wild_addr: true, ..opt };
                         for _ in 0..(if quick { 100 } else { 2000 }) {
                             if mine(ctx) {
@@ -592,7 +596,7 @@ impl Mode for StepMode {
                         }
                     }
                     // (d) immediates / bit numbers / conditions / small absolute fields: every value
-                    for l in ['i', 'c'] {
+                    for l in ['i', 'c', 'a'] {
                         if let Some(n) = form.fields.get(&l) {
                             if *n <= 8 {
                                 for v in 0..(1u64 << *n) {
@@ -907,7 +911,7 @@ impl StepMode {
             c.er = rand_regs(rng);
             // mostly unmasked at the start; sometimes masked throughout (requests must then stay pending)
             c.ccr = if rng.chance(1, 6) { rng.u8() | 0x80 } else { rng.u8() & 0x7f };
-            c.er[7] = (if rng.chance(1, 2) { 0xffe800 } else { 0x41f000 } + 4 * rng.below(64) as u32) | if rng.chance(1, 4) { (rng.u8() as u32) << 24 } else { 0 };
+            c.er[7] = (if rng.chance(1, 2) { 0xffe800 } else { 0x41f000 } + 4 * rng.below(64) as u32 + if rng.chance(1, 4) { 2 } else { 0 }) | if rng.chance(1, 4) { (rng.u8() as u32) << 24 } else { 0 };
             let base: u32 = if rng.chance(1, 2) { 0xffc000 } else { 0x416900 } + 0x400 * rng.below(4) as u32;
             // main: a counted loop over a few ALU instructions on ER0-ER3, then a self-loop
             let mut ws: Vec<u16> = Vec::new();
@@ -1206,7 +1210,7 @@ impl StepMode {
         for e in er.iter_mut() {
             *e = if rng.chance(2, 3) { data_addr(rng, 4, true) } else { interesting32(rng) };
         }
-        er[7] = data_addr(rng, 4, false).max(0x400010) & !3;
+        er[7] = (data_addr(rng, 4, false).max(0x400010) & !3) | if rng.chance(1, 3) { 2 } else { 0 };
         er
     }
 
@@ -1284,7 +1288,7 @@ impl StepMode {
                 // entry alone (n=0), I clear so that it is accepted; every 8th with I set (stays pending)
                 let mut c = CaseB::new();
                 c.er = rand_regs(rng);
-                c.er[7] = data_addr(rng, 4, false).max(0x400010) & !3;
+                c.er[7] = (data_addr(rng, 4, false).max(0x400010) & !3) | if rng.chance(1, 3) { 2 } else { 0 };
                 c.ccr = if ccr % 8 == 7 { ccr as u8 | 0x80 } else { ccr as u8 & 0x7f };
                 c.pc = code_addr(rng, 2);
                 let t = code_addr(rng, 2);
@@ -1307,7 +1311,7 @@ impl StepMode {
             // nested: TRAPA #a at pc; handler a does TRAPA #b; handler b RTE; then RTE
             let mut c = CaseB::new();
             c.er = rand_regs(rng);
-            c.er[7] = (data_addr(rng, 4, false).max(0x400040) & !3) | if rng.chance(1, 3) { (rng.u8() as u32) << 24 } else { 0 };
+            c.er[7] = (data_addr(rng, 4, false).max(0x400040) & !3) | if rng.chance(1, 3) { 2 } else { 0 } | if rng.chance(1, 3) { (rng.u8() as u32) << 24 } else { 0 };
             c.ccr = rng.u8();
             c.pc = code_addr(rng, 2);
             let a = rng.range(1, 3) as u32;
@@ -1355,7 +1359,7 @@ impl StepMode {
             c.er = rand_regs(rng);
             c.ccr = rng.u8();
             let sp_hi = if rng.chance(1, 3) { (rng.u8() as u32) << 24 } else { 0 };
-            c.er[7] = (if rng.chance(1, 2) { 0xffe800 } else { 0x41f000 } + 4 * rng.below(64) as u32) | sp_hi;
+            c.er[7] = (if rng.chance(1, 2) { 0xffe800 } else { 0x41f000 } + 4 * rng.below(64) as u32 + if rng.chance(1, 4) { 2 } else { 0 }) | sp_hi;
             // function k lives at base + 0x40*k; code region RAM or DRAM
             let base: u32 = if rng.chance(1, 2) { 0xffc000 } else { 0x416900 } + 0x400 * rng.below(8) as u32;
             let faddr = |k: usize| base + 0x40 * k as u32;
